@@ -156,3 +156,42 @@ func init() {
 		Assumptions: []string{"no archive faults are injected (the property says nothing about damaged archives)", "gating backups are taken by the only client (quiescent w.r.t. writers; background snapshots/compactions still run); backups concurrent with writers are an observing configuration judged with interval semantics"},
 	})
 }
+
+var storeReal = []string{"tsdb.Store with 3 shards of one database (shared series file, epoch trackers, delete guards), tsm1 engines, tsi1 indexes, predicate package — instrumented from the working tree"}
+
+func init() {
+	reg(&checkSpec{
+		ID: "C17", Harness: "store", Inst: storagePkgs, Level: "exploration", Classes: []string{"C17:", "deadlock", "busy-wait"},
+		Cfgs: []cfgSpec{
+			{Name: "concurrent-writers-deleters", Cfg: "clients=3,noreopen", Gating: true, Share: 3},
+			{Name: "single-client-with-reopen", Cfg: "clients=1,wmeta=4", Gating: true, Share: 1},
+		},
+		QuickSecs: 60, ThoroughSecs: 900, MaxRunsPerProc: 150,
+		Rule:   "one case = one generated multi-client program of writes (routed to 3 shards), predicate+range deletes across shards, reads, snapshots, compactions under one seeded schedule; non-trivial = at least 4 operations and one context switch; distinct = distinct hash of (operations, context-switch sequence)",
+		Probes: []string{"writer_parked_on_guard", "metadata_checks"},
+		Real:   storeReal, Stub: engStub[:4],
+		Assumptions: []string{"metadata direction 'not listed when no data remains' is only demanded after a completed full-range delete (piecewise deletes keep a TSM index entry until compaction)"},
+	})
+	reg(&checkSpec{
+		ID: "C16", Harness: "store", Inst: storagePkgs, Level: "exploration", Classes: []string{"C17:resurrected", "C17:lost", "C17:phantom", "C17:stale"},
+		Cfgs: []cfgSpec{
+			{Name: "predicate-deletes", Cfg: "clients=1,wdel=8,wread=3,wmeta=0,nosettle", Gating: true, Share: 1},
+		},
+		QuickSecs: 40, ThoroughSecs: 600, MaxRunsPerProc: 150,
+		Rule:   "one case = one generated single-client history dominated by predicate deletes (conjunctions of = / != on _measurement, host, region; values with escaped spaces) followed by full reads; the set of series whose points disappear must equal the model's evaluation of the predicate; non-trivial = at least 4 operations; distinct = distinct hash of (operations, schedule)",
+		Probes: []string{"metadata_checks"},
+		Real:   storeReal, Stub: engStub[:4],
+		Assumptions: []string{"the predicate language of the delete API only has AND (the parser rejects OR), so OR is not generated; the predicate space is sampled, not enumerated"},
+	})
+	reg(&checkSpec{
+		ID: "C42", Harness: "store", Inst: storagePkgs, Level: "exploration", Classes: []string{"C42:"},
+		Cfgs: []cfgSpec{
+			{Name: "metadata-after-histories", Cfg: "clients=2,wmeta=3", Gating: true, Share: 1},
+		},
+		QuickSecs: 40, ThoroughSecs: 600, MaxRunsPerProc: 150,
+		Rule:   "one case = one generated write/delete history over 3 shards; at quiescent points (end of program, after the settle period, after reopen) MeasurementNames and TagValues over all shards are compared with the model: sorted, duplicate-free, grouped by measurement, every name of a series with live data listed, no name listed whose every series was wiped; non-trivial = at least 4 operations and one context switch",
+		Probes: []string{"metadata_checks"},
+		Real:   storeReal, Stub: engStub[:4],
+		Assumptions: []string{"conditions and fine-grained authorizers are not generated yet (nil condition, nil authorizer)"},
+	})
+}
